@@ -83,9 +83,9 @@ def compile_models(cfg):
     return infos, sw.T, sw.tzdb
 
 
-def base_instants():
+def base_instants(years=None):
     out = set()
-    for y in YEARS:
+    for y in (years or YEARS):
         ny = _dt.datetime(y, 1, 1)
         for h in range(-30, 31):
             out.add(_secs(ny + _dt.timedelta(hours=h)))
@@ -109,6 +109,7 @@ def option_rule(R, cfg, zs, infos, combos_limit=None):
     reference = {}
     instants_of = {}
     thorough = cfg.tier == 'thorough'
+    ys = tuple(range(2001, 2010)) if thorough else YEARS          # thorough tier: nine years instead of five
     for zname in sorted(infos):
         pev = PyEval(cfg, max_steps=400000000)
         answers = []
@@ -123,8 +124,8 @@ def option_rule(R, cfg, zs, infos, combos_limit=None):
                 z = pev.instantiate(zs, 'ZoneSpecifier', kwargs=dict({params[0]: infos[zname]}, **opt))
                 if instants is None:
                     # the family: the hours around New Year, mid-months, and the hours around every transition the reference reports
-                    inst = set(base_instants())
-                    for y in YEARS:
+                    inst = set(base_instants(ys))
+                    for y in ys:
                         pev.call(zs, 'ZoneSpecifier.init_for_year', [y], recv=z)
                         for t in z.attrs.get('transitions') or []:
                             s_ = t.attrs.get('startEpochSecond')
@@ -132,7 +133,7 @@ def option_rule(R, cfg, zs, infos, combos_limit=None):
                                 for h in range(-3, 4):
                                     inst.add(s_ + 3600 * h)
                                 inst.update((s_ - 1, s_ + 1))
-                    lo, hi = _secs(_dt.datetime(YEARS[0], 1, 2)), _secs(_dt.datetime(YEARS[-1], 12, 30))
+                    lo, hi = _secs(_dt.datetime(ys[0], 1, 2)), _secs(_dt.datetime(ys[-1], 12, 30))
                     instants = sorted(e for e in inst if lo <= e <= hi)
                 got = {}
                 for e in instants:
@@ -200,6 +201,16 @@ def _build(lib, ty, depth=0):
 
 def _cstr(s):
     return [ord(ch) for ch in s] + [0]
+
+
+def _bind(lib, cls, P, info):
+    """the processor is bound to its zone the way its users do it: setZoneInfo()"""
+    from .aeval import AEval, CxxModule
+    from .rules_C04b import _cstring_ops
+    f = [g for g in lib.fns(cls + '::setZoneInfo') if len(g.params) == 1]
+    if not f:
+        raise AnalysisError('anchor vanished: %s::setZoneInfo' % cls)
+    AEval(module=CxxModule(lib, ['ace_time::']), intrinsics=_cstring_ops(), typed=True, max_steps=100000).call_function(f[0].name, [info], recv=P, chosen=CxxModule._Fn(f[0]))
 
 
 def zone_graph(lib, T, scope='extended'):
@@ -273,7 +284,7 @@ def processor_answers(lib, scope, T, zones, instants_of):
         if zname not in graph:
             raise AnalysisError('model zone %s is not in the rendered %s tables' % (zname, scope))
         P = _build(lib, cls)
-        P.attrs['mZoneInfo'].attrs['mZoneInfo'] = graph[zname]
+        _bind(lib, cls, P, graph[zname])
         got = {}
         for e in instants_of[zname]:
             try:
@@ -580,7 +591,7 @@ def local_time_rule(R, cfg, lib, rid='R4'):
             c = '%s[%s]:local-times' % (f.name, zname)
             bad, n = None, 0
             P = _build(lib, cls)
-            P.attrs['mZoneInfo'].attrs['mZoneInfo'] = graph[zname]
+            _bind(lib, cls, P, graph[zname])
             offs = sorted({x[1] for x in line})
             try:
                 for l_ in sorted(locals_):
